@@ -84,7 +84,7 @@ def findMapKey (keys : List Bytes) (vals : List GoVal) (name : Bytes) : Option G
 /-- helpers.go getFieldValueByNameFromStruct -/
 def fieldByName (name : Bytes) (sv : RV) : Option GoVal :=
   if isEmptyValue sv then none else
-  match sv.derefOnce with
+  match sv.derefAll with
   | .val (.map _ _ keys vals) => (findMapKey keys vals name).map numberKindsToDecimal
   | .val (.struct names vals) =>
     match (names.zip vals).find? (fun p => p.1.2 && equalFold p.1.1 name) with
@@ -104,7 +104,7 @@ def valuesByName (name : Bytes) (data : GoVal) : Out :=
     match v.elems with
     | [] => .knf
     | fev :: _ =>
-      let k := fev.derefOnce.kind
+      let k := fev.derefAll.kind
       if !(k == .struct || k == .map) then .knf else
       let found := v.elems.filterMap (fieldByName name)
       if found.isEmpty then .knf else .ok (.slice true false found)
@@ -394,10 +394,7 @@ def isSliceKind (v : GoVal) : Option (List GoVal) :=
 /-- helpers.go objectAsMap: a struct (behind any number of pointers) becomes the map of its exported fields -/
 def objectAsMap : GoVal → GoVal
   | .ptr false v => (match objectAsMap v with
-      | .map kk n ks vs => (match v with
-          | .struct .. => .map kk n ks vs
-          | .ptr false _ => .map kk n ks vs
-          | _ => .ptr false v)
+      | .map kk n ks vs => .map kk n ks vs
       | _ => .ptr false v)
   | .struct names vals =>
       let kept := (names.zip vals).filter (fun p => p.1.2)
